@@ -212,6 +212,54 @@ jobs:
     steps:
       - run: echo
 `,
+	// alternative forms: scalar instead of sequence, env / services given by one expression,
+	// nested matrix values, every workflow_dispatch input type, two schedule elements
+	"seed-e": `on:
+  pull_request:
+    types: opened
+    branches: main
+  schedule:
+    - cron: '0 0 * * *'
+    - cron: '5 4 * * 0'
+  workflow_dispatch:
+    inputs:
+      b:
+        type: boolean
+        default: true
+      n:
+        type: number
+        default: 1
+      e:
+        type: environment
+      s:
+        type: string
+env: ${{ fromJSON('{}') }}
+jobs:
+  only:
+    runs-on: ubuntu-latest
+    env: ${{ fromJSON('{}') }}
+    strategy:
+      matrix:
+        os: [[a, b], {k: v}]
+        include:
+          - os: [c]
+            nested: {x: {y: z}}
+    container:
+      image: img
+      env: ${{ fromJSON('{}') }}
+    services: ${{ fromJSON('{}') }}
+    steps:
+      - run: echo
+        env: ${{ fromJSON('{}') }}
+  svc:
+    runs-on: ubuntu-latest
+    services:
+      db:
+        image: pg
+        env: ${{ fromJSON('{}') }}
+    steps:
+      - run: echo
+`,
 	"seed-d": `on: push
 jobs:
   only:
@@ -540,7 +588,7 @@ func vSchemaOf(np string) (vScalarSchema, bool) {
 		return t("")
 	case np == "permissions" || np == "permissions.*" || np == j+"permissions" || np == j+"permissions.*":
 		return ex()
-	case np == "env.*":
+	case np == "env.*" || np == "env":
 		return t("env")
 	case np == "defaults.run.shell" || np == "defaults.run.working-directory":
 		return t("")
@@ -566,7 +614,7 @@ func vSchemaOf(np string) (vScalarSchema, bool) {
 		return t(jk + "concurrency")
 	case r == "outputs.*":
 		return t(jk + "outputs.<output_id>")
-	case r == "env.*":
+	case r == "env.*" || r == "env":
 		return t(jk + "env")
 	case r == "defaults.run.shell" || r == "defaults.run.working-directory":
 		return t(jk + "defaults.run")
@@ -582,15 +630,15 @@ func vSchemaOf(np string) (vScalarSchema, bool) {
 		return t(jk + "container.image")
 	case r == "container.credentials.username" || r == "container.credentials.password":
 		return t(jk + "container.credentials")
-	case r == "container.env.*":
+	case r == "container.env.*" || r == "container.env":
 		return t(jk + "container.env.<env_id>")
 	case r == "container.ports[]" || r == "container.volumes[]" || r == "container.options":
 		return t(jk + "container")
 	case r == "services.*.credentials.username" || r == "services.*.credentials.password":
 		return t(jk + "services.<service_id>.credentials")
-	case r == "services.*.env.*":
+	case r == "services.*.env.*" || r == "services.*.env":
 		return t(jk + "services.<service_id>.env.<env_id>")
-	case strings.HasPrefix(r, "services.*."):
+	case strings.HasPrefix(r, "services.*.") || r == "services":
 		return t(jk + "services")
 	case r == "uses":
 		return t("")
@@ -606,7 +654,7 @@ func vSchemaOf(np string) (vScalarSchema, bool) {
 		return t(jk + "steps.if")
 	case r == "steps[].name":
 		return t(jk + "steps.name")
-	case r == "steps[].env.*":
+	case r == "steps[].env.*" || r == "steps[].env":
 		return t(jk + "steps.env")
 	case r == "steps[].continue-on-error":
 		return t(jk + "steps.continue-on-error")
@@ -627,6 +675,7 @@ type vMappingSchema struct {
 	CI        bool     // keys compared case-insensitively
 	Mandatory []string // mandatory keys
 	AtItem    bool     // violations are reported at the sequence item instead of the key (schedule)
+	Free      bool     // free-form value (nested matrix values): no key set fixed by the syntax, not claimed by C13
 	Keys      []string // key set of a closed mapping (documentation)
 }
 
@@ -694,6 +743,8 @@ func vMappingSchemaOf(np string, keys []string) (vMappingSchema, bool) {
 		return open()
 	case "jobs.*.container", "jobs.*.services.*":
 		return closed()
+	case "jobs.*.strategy.matrix.*[]", "jobs.*.strategy.matrix.include[].*", "jobs.*.strategy.matrix.include[].*.x", "jobs.*.strategy.matrix.exclude[].*":
+		return vMappingSchema{Free: true}, true // nested matrix values are free-form
 	case "jobs.*.container.credentials", "jobs.*.services.*.credentials":
 		return closed("username", "password")
 	case "jobs.*.steps[]":
